@@ -408,12 +408,9 @@ open Moc.Fits
 theorem fits_file_blocks (q : Qty) (w depth : Nat) (rs : List Rng) (hd : depth ≤ 255)
     (hw : w / 8 < 10 ^ 20) (hn : rs.length <<< 1 < 10 ^ 20) :
     (rangeFile q w depth rs).length % 2880 = 0 := by
-  unfold rangeFile
-  simp only [List.length_append, List.length_map, List.length_replicate,
-    block_length _ primaryCards_80 (by decide),
-    block_length _ (tableCards_80 q w depth rs.length hd hw hn) (tableCards_count q w depth rs.length)]
-  have := (padding_spec (dataUnit w rs).length).1
-  omega
+  have hwl : (encodeWords rs).length = rs.length <<< 1 := by
+    rw [encodeWords_length, Nat.shiftLeft_eq, Nat.pow_one, Nat.mul_comm]
+  exact fileOf_blocks w _ _ (mocCards_80 q w depth hd) (by have := mocCards_count q w depth; omega) hw (by rw [hwl]; exact hn)
 
 /-- **Declared row width and row count equal the data actually written, and the data are read back**:
     the reader's unsigned-value parser applied to the `NAXIS1` and `NAXIS2` cards of the file gives
@@ -426,55 +423,28 @@ theorem fits_file_structure (q : Qty) (w depth : Nat) (rs : List Rng) (hd : dept
     (hfit : ∀ r ∈ rs, r.1 < 256 ^ (w / 8) ∧ r.2 < 256 ^ (w / 8)) :
     readStructure (rangeFile q w depth rs) = some (w / 8, rs.length <<< 1, rs) ∧
     (w / 8) * (rs.length <<< 1) = (dataUnit w rs).length := by
-  have hp := block_length _ primaryCards_80 (by decide)
-  have ht80 := tableCards_80 q w depth rs.length hd hw hn
-  have ht := block_length _ ht80 (tableCards_count q w depth rs.length)
-  have hlen : (dataUnit w rs).length = (w / 8) * (rs.length <<< 1) := by
-    rw [dataUnit_length, Nat.shiftLeft_eq, Nat.pow_one, Nat.mul_comm 2]
-  refine ⟨?_, hlen.symm⟩
-  have hhdr : ((rangeFile q w depth rs).take 5760).map Char.ofNat
-      = block primaryCards ++ block (tableCards q w depth rs.length) := by
-    unfold rangeFile
-    simp only []
-    have hl : ((block primaryCards ++ block (tableCards q w depth rs.length)).map Char.toNat).length = 5760 := by
-      simp only [List.length_map, List.length_append, hp, ht]
-    rw [List.append_assoc, ← hl, List.take_left, map_ofNat_toNat]
-  have hdata : ((rangeFile q w depth rs).drop 5760).take ((w / 8) * (rs.length <<< 1)) = dataUnit w rs := by
-    unfold rangeFile
-    simp only []
-    have hl : ((block primaryCards ++ block (tableCards q w depth rs.length)).map Char.toNat).length = 5760 := by
-      simp only [List.length_map, List.length_append, hp, ht]
-    rw [List.append_assoc, ← hl, List.drop_left, ← hlen, List.take_left]
-  obtain ⟨n1, n2⟩ := tableCards_naxis q w depth rs.length
-  have c39 : getCard (block primaryCards ++ block (tableCards q w depth rs.length)) 39
-      = cardFixed ['N', 'A', 'X', 'I', 'S', '1', ' ', ' '] (showNat (w / 8)) := by
-    have := getCard_second (block primaryCards) (block (tableCards q w depth rs.length)) hp 3
-    rw [show 36 + 3 = 39 from rfl] at this
-    rw [this]
-    have h2 := getCard_block _ ht80 [] 3 _ n1
-    rwa [List.append_nil] at h2
-  have c40 : getCard (block primaryCards ++ block (tableCards q w depth rs.length)) 40
-      = cardFixed ['N', 'A', 'X', 'I', 'S', '2', ' ', ' '] (showNat (rs.length <<< 1)) := by
-    have := getCard_second (block primaryCards) (block (tableCards q w depth rs.length)) hp 4
-    rw [show 36 + 4 = 40 from rfl] at this
-    rw [this]
-    have h2 := getCard_block _ ht80 [] 4 _ n2
-    rwa [List.append_nil] at h2
-  unfold readStructure
-  simp only []
-  rw [hhdr, c39, c40, readUint_cardFixed _ _ rfl (showNat_length 19 _ hw),
-    readUint_cardFixed _ _ rfl (showNat_length 19 _ hn)]
-  simp only [hdata]
   have hwl : (encodeWords rs).length = rs.length <<< 1 := by
     rw [encodeWords_length, Nat.shiftLeft_eq, Nat.pow_one, Nat.mul_comm]
-  have hwords := wordsOf_flatMap (w / 8) (encodeWords rs) (by
-    intro x hx
-    obtain ⟨r, hr, h | h⟩ := mem_encodeWords rs x hx
-    · rw [h]; exact (hfit r hr).1
-    · rw [h]; exact (hfit r hr).2) []
-  rw [List.append_nil, hwl] at hwords
-  unfold dataUnit
-  rw [hwords, decodeWords_encodeWords]
+  obtain ⟨h1, h2⟩ := fileOf_words w (mocCards q w depth) (encodeWords rs) (mocCards_80 q w depth hd)
+    (by have := mocCards_count q w depth; omega) hw (by rw [hwl]; exact hn) (by
+      intro x hx
+      obtain ⟨r, hr, h | h⟩ := mem_encodeWords rs x hx
+      · rw [h]; exact (hfit r hr).1
+      · rw [h]; exact (hfit r hr).2)
+  refine ⟨?_, ?_⟩
+  · unfold readStructure rangeFile
+    rw [h1, hwl]
+    simp only [decodeWords_encodeWords]
+  · rw [← hwl]; exact h2
+
+/-- **The NUNIQ file**: 2880-byte blocks, `NAXIS2` = the number of cells, and the NUNIQ numbers are
+    read back from the `NAXIS1 × NAXIS2` data bytes, for every list of numbers that fit the index type. -/
+theorem fits_nuniq_file (w depth : Nat) (uniqs : List Nat) (hd : depth ≤ 255)
+    (hw : w / 8 < 10 ^ 20) (hn : uniqs.length < 10 ^ 20) (hfit : ∀ x ∈ uniqs, x < 256 ^ (w / 8)) :
+    (nuniqFile w depth uniqs).length % 2880 = 0 ∧
+    readWords (nuniqFile w depth uniqs) = some (w / 8, uniqs.length, uniqs) :=
+  ⟨fileOf_blocks w _ _ (nuniqCards_80 w depth hd) (by simp [nuniqCards]) hw hn,
+   (fileOf_words w _ _ (nuniqCards_80 w depth hd) (by simp [nuniqCards]) hw hn hfit).1⟩
 
 /-- Non-vacuity: the hypotheses hold for an S-MOC on 16 bits. -/
 example : readStructure (rangeFile Params.hpx 16 4 [(16, 96), (112, 128)]) = some (2, 4, [(16, 96), (112, 128)]) :=
